@@ -17,6 +17,7 @@ import (
 	"fmt"
 	"io"
 	"log/slog"
+	"math"
 	"runtime/debug"
 	"strings"
 	"sync/atomic"
@@ -46,7 +47,11 @@ type caseT struct {
 	Decl      bool            `json:"declares_input_schema"`
 	LogLevel  string          `json:"log_level,omitempty"`
 	RequestID string          `json:"request_id"`
+	Lookalike bool            `json:"emits_protocol_lookalike_metadata,omitempty"`
 }
+
+var lookalikeKeys = []string{"vgi_rpc.log_level", "vgi_rpc.log_message", "vgi_rpc.log_extra", "vgi_rpc.location", "vgi_rpc.request_id", "vgi_rpc.server_id",
+	"vgi_rpc.cancel", "vgi_rpc.stream_state", "vgi_rpc.call_state#b64x", "vgi_rpc.error_kind", "vgi_rpc.shm_offset", "vgi_rpc.method"}
 
 type config struct {
 	Limit     int    `json:"batch_limit"`
@@ -166,6 +171,16 @@ func genCase(r *mon.Run, i int) caseT {
 		c.Variant = "exact"
 	}
 	c.Script = svc.GenStream(rng, fmt.Sprintf("c11-%d", i), o)
+	// Domain audit: per-batch metadata whose keys look like (or are) protocol keys is still the
+	// method's metadata. Only on batches with >= 1 row: a ZERO-row batch carrying vgi_rpc.log_level /
+	// vgi_rpc.location is by protocol a log / pointer batch on either transport. The two token keys
+	// themselves (vgi_rpc.stream_state#b64, vgi_rpc.call_state#b64) are not generated: see SENSITIVITY.md.
+	for k := range c.Script.Turns {
+		if t := &c.Script.Turns[k]; t.Rows >= 1 && rng.IntN(5) == 0 {
+			t.Meta = append(t.Meta, svc.KV{K: lookalikeKeys[rng.IntN(len(lookalikeKeys))], V: []string{"", "INFO", "EXCEPTION", "https://mem.invalid/x", "7", "true"}[rng.IntN(6)]})
+			c.Lookalike = true
+		}
+	}
 	c.Decl = true
 	if c.Kind == "dynamic-exchange" && rng.IntN(4) == 0 && c.Variant == "exact" {
 		c.Script.DeclInput, c.Decl = false, false
@@ -348,6 +363,9 @@ func (w *checker) run(c caseT, cfgs []config) {
 	if pred.Header != nil {
 		r.Class("header.present")
 	}
+	if c.Lookalike {
+		r.Class("emit.protocol-lookalike-metadata")
+	}
 	if pred.Fails {
 		r.Class("ends.error")
 	} else {
@@ -395,6 +413,9 @@ func (w *checker) run(c caseT, cfgs []config) {
 		events := svc.EventsOf(svc.FromLog(w.log.Since(mark)), c.id())
 		hw := map[string]any{"case": c, "config": cf, "predicted": pred, "pipe": pres, "http": res, "http_events": events}
 		r.Case(fmt.Sprintf("%s|%s|%s|lim%d|cache%d|%s|inst%d|rnd%v", c.Kind, c.Shape, c.Variant, cf.Limit, cf.Cache, cf.Comp, cf.Instances, cf.Random))
+		if cf.Limit < 0 || cf.Limit > 7 {
+			r.Class("cfg.probe.extreme-limit+cache-1")
+		}
 		r.Class(fmt.Sprintf("cfg.limit.%d", cf.Limit))
 		r.Class(fmt.Sprintf("cfg.cache.%d", cf.Cache))
 		r.Class("cfg.comp." + cf.Comp)
@@ -467,7 +488,7 @@ func main() {
 	req := []string{"kind.producer", "kind.exchange", "kind.dynamic-producer", "kind.dynamic-exchange", "kind.typed-exchange", "kind.typed-dynamic",
 		"shape.complete", "shape.fail-error", "shape.fail-panic", "shape.fail-none", "shape.fail-emit2", "shape.finish-variant", "shape.castable", "shape.not-castable", "shape.early-eos", "shape.init-fail",
 		"input.int32", "input.float32", "input.decimal", "input.both", "input.ts-s", "input.ts-ms", "input.dec-10-2", "input.list-i32", "input.w-dec", "input.all",
-		"dynamic-declared-input.castable-unequal", "header.present", "ends.error", "ends.clean",
+		"dynamic-declared-input.castable-unequal", "emit.protocol-lookalike-metadata", "cfg.probe.extreme-limit+cache-1", "header.present", "ends.error", "ends.clean",
 		"routing.call-spread-over-instances", "http.>=2-continuations", "producer.split-by-batch-limit",
 		"cfg.instances.1", "cfg.instances.2", "cfg.instances.3", "cfg.random.true", "cfg.random.false", "cfg.cache.0", "cfg.cache.-1"}
 	for _, l := range limits {
@@ -504,6 +525,13 @@ func main() {
 		for j := 0; j < k; j++ {
 			// stride 7 is coprime to 300: consecutive scripts walk the whole matrix
 			cfgs = append(cfgs, configAt((i*k+j)*7+int(r.Seed())))
+		}
+		if i%5 == 3 {
+			// Domain audit: limits / cache sizes the setters accept without complaint. A non-positive
+			// limit means "unlimited", a huge one is never reached, a 1-entry cache thrashes.
+			rg := r.Rand(uint64(i), 11)
+			cfgs = append(cfgs, config{Limit: []int{-1, math.MinInt64, 1 << 31, 1 << 62, math.MaxInt64}[rg.IntN(5)], Cache: 1,
+				Comp: comps[rg.IntN(5)], Instances: 1 + rg.IntN(3), Random: rg.IntN(2) == 0})
 		}
 		w.run(c, cfgs)
 		if i%200 == 199 {
